@@ -221,7 +221,9 @@ func init() {
 }
 
 //go:noinline
-func body_ArpProcess(c *ctx, g *gctx) { hs.arp.ProcessPacket(restore(hs.arpFrm[g.rng.Intn(len(hs.arpFrm))])) }
+func body_ArpProcess(c *ctx, g *gctx) {
+	hs.arp.ProcessPacket(restore(hs.arpFrm[g.rng.Intn(len(hs.arpFrm))]))
+}
 
 //go:noinline
 func body_ArpStartHunt(c *ctx, g *gctx) {
